@@ -2,7 +2,7 @@
    mdns.go/nbns.go/ssdp.go): for every payload that fits the buffer the frame is a
    well-formed Ethernet/IPv4/UDP (IPv6/UDP) datagram carrying exactly that payload
    between the requested addresses and ports. *)
-From PV Require Import Proofs.SendBase Model.Send Model.SendUdp Spec.SendRefUdp Spec.SendKnown.
+From PV Require Import Proofs.SendBase Model.Send Model.SendUdp Spec.SendRefUdp.
 Open Scope N_scope.
 Local Arguments N.of_nat : simpl never.
 
